@@ -124,7 +124,12 @@ def run_script(exe, lines, wd, name="s", hang=60, timeout=900, env_extra=None, p
                         events.append(json.loads(ln))
                     except Exception:
                         events.append({"e": "Garbled", "raw": ln[:200]})
-            complete = bool(events) and events[-1].get("e") == "End" and rc == 0
+            ended = bool(events) and events[-1].get("e") == "End"
+            # leaks that a LeakCheck event already attributed to an execution are reported again at exit
+            lcs = [e["bytes"] for e in events if e.get("e") == "LeakCheck"]
+            attributed = any(b > a for a, b in zip(lcs, lcs[1:]))
+            only_leaks = rc != 0 and "LeakSanitizer" in (err or "") and "ERROR: AddressSanitizer" not in (err or "") and "runtime error" not in (err or "") and attributed
+            complete = ended and (rc == 0 or only_leaks)
         else:
             with open(tp, "rb") as f:
                 try:
